@@ -124,7 +124,7 @@ Proof.
   assert (Hu0 : (bor (bor (rho_1 nc nx ny G E S goals moore plus_one z)
                           (rho_2 nc nx ny G E S moore plus_one yij))
                      (rho_3 nc nx ny G E S holds moore plus_one xijk)) v = true).
-  { unfold streett_action in HA. cbv zeta in HA. destruct plus_one.
+  { unfold streett_action in HA. cbv zeta in HA. destruct plus_one; cbn [negb] in HA.
     - rewrite band_spec in HA. apply andb_true_iff in HA. apply HA.
     - destruct moore.
       + rewrite forall_spec in HA. cbn [forall_raw dom] in HA. rewrite forallb_forall in HA.
